@@ -509,7 +509,7 @@ func (e *goEnv) binary(op token.Token, a, b Value) (Value, error) {
 			eq = true
 		default:
 			// symbolic vs something else: decided by the oracle, keyed by both renderings
-			eq = e.w.Or.Bool("eq:" + av.Render() + "==" + bv.Render())
+			eq = e.w.Or.Bool(eqKey(av.Render(), bv.Render()))
 		}
 		switch op {
 		case token.EQL:
